@@ -1,7 +1,7 @@
 (* Property C05: keyed collections act as functions; >>, >>>, ++ and offsets
    keep keys right.  Statements about the reference semantics (Eval/Interp.v);
    the Go representations are tied to it by the correspondence run. *)
-From Arrai Require Import Base.Val Spec.SetAlg Eval.Interp Proofs.ValOrder Proofs.SetAlgP Proofs.KeyedP.
+From Arrai Require Import Base.Val Spec.SetAlg Eval.Interp Proofs.ValOrder Proofs.SetAlgP Proofs.KeyedP Proofs.SeqMapP.
 
 (* what "the values paired with k" means *)
 Theorem C05_lookup :
@@ -52,10 +52,29 @@ Theorem C05_offset_shifts_every_index :
 Proof. exact offset_spec. Qed.
 Print Assumptions C05_offset_shifts_every_index.
 
-(* >> keeps every key (offsets and holes included): checked on concrete programs
-   of the evaluator; the general statement over [eval] is covered by the
-   correspondence, see DESIGN (C05, partial). *)
-Example C05_seqmap_keeps_keys_partial :
+(* >> and >>> keep every key (offsets and holes included), for every operand, transformer, scope
+   and fuel: position for position the result is built from a member with the same key and the
+   same attribute name, and from nothing else *)
+Theorem C05_seqmap_keeps_keys :
+  forall fuel rho w a fn l r,
+    eval fuel rho a = Ok (D (VSet l)) ->
+    eval (S fuel) rho (ESeqArrow w a fn) = Ok (D r) ->
+    exists ms, r = mkset (map rekeyed ms) /\
+      Forall2 (fun m t => exists v, as_pair m = Some (fst (fst t), snd (fst t), v)) l ms.
+Proof. exact seqarrow_keeps_keys. Qed.
+Print Assumptions C05_seqmap_keeps_keys.
+
+Theorem C05_seqmap_invents_no_key :
+  forall fuel rho w a fn l r,
+    eval fuel rho a = Ok (D (VSet l)) ->
+    eval (S fuel) rho (ESeqArrow w a fn) = Ok (D r) ->
+    exists ms, r = mkset (map rekeyed ms) /\ length ms = length l /\
+      forall t, In t ms -> exists m v, In m l /\ as_pair m = Some (fst (fst t), snd (fst t), v).
+Proof. exact seqarrow_no_new_keys. Qed.
+Print Assumptions C05_seqmap_invents_no_key.
+
+(* non-vacuity: an offset array with a hole *)
+Example C05_seqmap_keeps_keys_example :
   run_data 60 (ESeqArrow false
                  (EBin BOffset (ELit (vint 2)) (EArrE [Some (ELit (vint 1)); None; Some (ELit (vint 3))]))
                  (EFn (PVar [46]) (EBin BAdd (EVar [46]) (ELit (vint 10)))))
